@@ -166,10 +166,18 @@ def run_check(tier, seed):
             ('function', [['load', 'function', None], ['load', 'logic', None]], [['append_item', 'logic', ax(6)], ['append_item', 'logic_base', ax(7)]],
              'two imports changed'),
             ('nat', [['load', 'nat', None]], [['touch', 'logic_base']], 'import touched only'),
+            ('nat', [['load', 'nat', None]],
+             [['new_theory', 'verif_extra', ['logic_base'], [{"ty": "thm.ax", "name": "verif_extra_ax", "vars": {"A": "bool"}, "prop": "A --> A"}]],
+              ['set_imports', 'logic', ['logic_base', 'verif_extra']], ['load_metadata']],
+             'imports of an import changed, metadata reloaded'),
+            ('function', [['load', 'function', None]],
+             [['new_theory', 'verif_extra2', ['logic_base'], [{"ty": "thm.ax", "name": "verif_extra2_ax", "vars": {"A": "bool"}, "prop": "A --> A"}]],
+              ['set_imports', 'nat', ['logic', 'verif_extra2']], ['touch', 'nat'], ['load_metadata']],
+             'imports of an import changed (file touched), metadata reloaded'),
             ('nat', [['load', 'nat', None]], [['append_item', 'logic', ax(9), 'older']], 'import replaced by a different, older-dated version'),
         ]
         if tier == 'quick':
-            mut_specs = mut_specs[:3] + r.sample(mut_specs[3:], 3)
+            mut_specs = mut_specs[:3] + [m_ for m_ in mut_specs[3:] if 'metadata' in m_[3]][:1] + r.sample([m_ for m_ in mut_specs[3:] if 'metadata' not in m_[3]], 3)
         mut_dirs, mut_jobs = [], []
         for target, pre, change, descr in mut_specs:
             pair = []
